@@ -36,6 +36,10 @@ pub fn evaluate_pair(case: &PairCase, run: &PairRun, focus: Focus) -> Outcome {
         check_c06(&StallInfo { two_send_waiters, unfinished: &run.unfinished, completed_when_repolled: run.completed_when_repolled, end: &run.end }, run.panic.is_some(), &mut out);
     } else if let RunEnd::BusyLoop(t) = &run.end {
         out.fail("C08", "busy-loop", format!("C08/busy-loop/{}", strip_digits(t)), format!("task {} keeps waking itself without any progress", t));
+    } else if focus == Focus::Resets && !faulty && run.completed_when_repolled == Some(true) {
+        // a program with resets and dropped handles may stall for reasons of its own, but not in a way that a mere
+        // re-poll of every task resolves: that is a wake-up the library owed
+        check_c06(&StallInfo { two_send_waiters, unfinished: &run.unfinished, completed_when_repolled: run.completed_when_repolled, end: &run.end }, run.panic.is_some(), &mut out);
     }
     let app_pending = run.unfinished.iter().any(|(_, g)| matches!(g, Group::ClientApp | Group::ServerApp));
     let conn_err = run.events.iter().any(|e| matches!(&e.api, Api::ConnDone { result: Err(_) }));
